@@ -159,6 +159,36 @@ def newOptsOk (opts : List String) : Bool :=
   | [c, "http"] => cfgOk c
   | _ => false
 
+/-- `agg key <sport> <dport> <proto> <src4> <dst4> <src6> <dst6> [p<n>]`: `~` = the record has no such element -/
+def parseKeyRec (a : List String) : Option FlowKey.KeyRec :=
+  let a := match a with
+    | [s, d, p, a4, b4, a6, b6, perm] => if permOk false perm then [s, d, p, a4, b4, a6, b6] else a
+    | _ => a
+  let num (bound : Nat) (t : String) : Option (Option Nat) := if t == "~" then some none else (decBelow bound t).map some
+  let addr (t : String) : Option (Option Bytes) :=
+    if t == "~" then some none
+    else match t.toList with
+      | 'x' :: r => (fromHex (String.ofList r)).map some
+      | _ => none
+  match a with
+  | [s, d, p, a4, b4, a6, b6] => do
+    let s ← num 65536 s
+    let d ← num 65536 d
+    let p ← num 256 p
+    let a4 ← addr a4
+    let b4 ← addr b4
+    let a6 ← addr a6
+    let b6 ← addr b6
+    pure { sport := s, dport := d, proto := p, src4 := a4, dst4 := b4, src6 := a6, dst6 := b6 }
+  | _ => none
+
+def ipTextToken : FlowKey.IPText → String
+  | .unset => "unset"
+  | .nil => "nil"
+  | .bad b => "bad:" ++ hexOrDash b
+  | .v4 b => "4:" ++ hexOrDash b
+  | .v6 b => "6:" ++ hexOrDash b
+
 /-- engine "agg": see harness/cmd/harness/eng_agg.go -/
 def engAgg (s : Agg.State) (a : List String) : Agg.State × String :=
   match a with
@@ -168,6 +198,14 @@ def engAgg (s : Agg.State) (a : List String) : Agg.State × String :=
     match act.toNat?, inact.toNat? with
     | some x, some y => if newOptsOk opts then ({ activeT := x, inactiveT := y }, "ok") else (s, "bad-op")
     | _, _ => (s, "bad-op")
+  | "key" :: rest =>
+    match parseKeyRec rest with
+    | none => (s, "bad-op")
+    | some r =>
+      -- the walk of getFlowKeyFromRecord (Model/FlowKey.lean)
+      match FlowKey.keyLoop r with
+      | none => (s, "err")
+      | some (k, v4) => (s, s!"ok {ipTextToken k.src} {ipTextToken k.dst} {k.proto} {k.sport} {k.dport} {b01 v4}")
   | "rec" :: rest =>
     if hasOmit rest then (s, "na")      -- outside the model
     else match parseRecA rest with
@@ -396,6 +434,28 @@ def chkAggA (t : C05.Tracker) (a : List String) : C05.Tracker × String :=
   let (op, obs) := splitBar a
   match op with
   | "new" :: _ :: _ :: _ => ({}, "holds")
+  | "key" :: rest =>
+    match parseKeyRec rest with
+    | none => (t, "na")
+    | some r =>
+      let ans : Option (Option C05.KeyAnswer) := match obs with
+        | ["err"] => some none
+        | ["ok", src, dst, pr, sp, dp, f] =>
+          match pr.toNat?, sp.toNat?, dp.toNat? with
+          | some pr, some sp, some dp =>
+            if f == "0" || f == "1" then some (some { text := s!"{src} {dst} {pr} {sp} {dp}", proto := pr, sport := sp, dport := dp, bothV4 := f == "1" })
+            else none
+          | _, _, _ => none
+        | _ => none
+      match ans with
+      | none => (t, "fails obs")
+      | some a =>
+        let t' := match a with
+          | some x => { t with keys := t.keys ++ [(r, x.text)] }
+          | none => t
+        match C05.judgeKey t.keys r a with
+        | some w => (t', s!"fails key {w}")
+        | none => (t', "holds")
   | _ =>
   if t.off then (t, "na")
   else match op with
